@@ -681,7 +681,15 @@ def r9_google_tag_pattern(ctx):
     rep = ctx.rep
     f = ctx.func('xdoctest.docstr.docscrape_google.split_google_docblocks')
     uses = [c for c in walk_scope(f.node) if isinstance(c, ast.Call) and isinstance(c.func, ast.Attribute) and is_name(c.func.value, 're') and c.func.attr in ('match', 'search', 'fullmatch') and c.args]
-    rep.floor('C07.R9', 'applications of the block-label pattern', len(uses), 2)
+    # ... or through a pattern object compiled in this function: rx = re.compile(P); rx.match(line)
+    compiled = {}
+    for x in walk_scope(f.node):
+        if isinstance(x, ast.Assign) and len(x.targets) == 1 and isinstance(x.targets[0], ast.Name) and isinstance(x.value, ast.Call) and isinstance(x.value.func, ast.Attribute) \
+                and is_name(x.value.func.value, 're') and x.value.func.attr == 'compile' and x.value.args:
+            compiled[x.targets[0].id] = x.value.args[0]
+    via = [c for c in walk_scope(f.node) if isinstance(c, ast.Call) and isinstance(c.func, ast.Attribute) and isinstance(c.func.value, ast.Name) and c.func.value.id in compiled
+           and c.func.attr in ('match', 'search', 'fullmatch')]
+    rep.floor('C07.R9', 'applications of the block-label pattern', len(uses) + len(via), 2)
     def leaves(e):
         if isinstance(e, ast.BinOp) and isinstance(e.op, ast.Add):
             return leaves(e.left) + leaves(e.right)
@@ -702,6 +710,8 @@ def r9_google_tag_pattern(ctx):
     pats = {}
     for c in uses:
         pats.setdefault(pattern_text(c.args[0]), []).append(c)
+    for c in via:
+        pats.setdefault(pattern_text(compiled[c.func.value.id]), []).append(c)
     for pat, cs in pats.items():
         rx = _re.compile(pat)
         meth = cs[0].func.attr
